@@ -434,7 +434,7 @@ def run_group(cmd, cwd, env, timeout):
 def run_native(repo, nhs, logpath, tier='quick'):
     cmd = ['cargo', 'test', '--offline', '--lib', 'verif_native_', '--', '--test-threads', '8']
     env = dict(os.environ, CARGO_NET_OFFLINE='true', CARGO_TERM_COLOR='never', RUSTFLAGS='--cfg verif_native', RUST_BACKTRACE='0', VERIF_TIER=tier)
-    overall = 1500 if tier == 'quick' else 6000
+    overall = 600 if tier == "quick" else 6000
     out, timed_out = run_group(cmd, repo, env, overall)
     if timed_out:
         # keep what the tests that did finish reported; the ones that did not are re-run one by one below
@@ -452,7 +452,7 @@ def run_native(repo, nhs, logpath, tier='quick'):
         for h in missing:
             c1 = ['cargo', 'test', '--offline', '--lib', h.name, '--', '--exact', '--test-threads', '1']
             c1[4] = h.fq
-            o1, t1 = run_group(c1, repo, env, 600 if tier == 'quick' else 3000)
+            o1, t1 = run_group(c1, repo, env, 300 if tier == "quick" else 3000)
             if t1:
                 o1 += '\ntimed out'
             m1 = re.search(r'^test \S+ \.\.\. (ok|FAILED)', o1, re.M)
